@@ -700,12 +700,12 @@ type c33OuterCall struct {
 }
 
 type c33Item struct {
-	id       uint64
-	tag      string
-	ledger   string
-	call     int64
-	idx, n   int
-	stamped  bool
+	id      uint64
+	tag     string
+	ledger  string
+	call    int64
+	idx, n  int
+	stamped bool
 }
 
 type c33CallPos struct {
